@@ -20,7 +20,28 @@ use std::sync::atomic::AtomicI64;
 use std::sync::atomic::Ordering;
 use std::sync::Arc;
 
-pub const TEXTS: &[&str] = &["a", "Query", "some_longer_field_name_0123456789", "x1", "__typename"];
+pub const TEXTS: &[&str] = &[
+    "a",
+    "Query",
+    "some_longer_field_name_0123456789",
+    "x1",
+    "__typename",
+    // proper prefixes of TEXTS[2]: static names for them are sub-slices of that one static string,
+    // so names with different texts share a start address
+    "some",
+    "some_longer",
+];
+
+/// The `&'static str` used for static names: prefixes of the long text are slices of it
+pub fn static_text(t: u8) -> &'static str {
+    let text = TEXTS[t as usize];
+    let long = TEXTS[2];
+    if text.len() < long.len() && long.starts_with(text) {
+        &long[..text.len()]
+    } else {
+        text
+    }
+}
 pub const N_NAMES: usize = 8;
 pub const N_ARCS: usize = 4;
 pub const N_NODES: usize = 6;
@@ -88,6 +109,8 @@ pub enum Op {
     /// Name::from_arc_unchecked / TryFrom<Arc<str>> from the witness Arc of a text
     FromArc(u8, u8, bool),
     CloneName(u8, u8),
+    /// `dst.clone_from(&src)` (in-place overwrite, as `Vec::clone_from` does per element)
+    CloneFrom(u8, u8),
     DropName(u8),
     /// with_location(file choice, start offset)
     WithLocation(u8, u8, u32),
@@ -132,6 +155,7 @@ impl Op {
             Op::NewStatic(a, b) => format!("ns {a} {b}"),
             Op::FromArc(a, b, c) => format!("fa {a} {b} {}", *c as u8),
             Op::CloneName(a, b) => format!("cn {a} {b}"),
+            Op::CloneFrom(a, b) => format!("cf {a} {b}"),
             Op::DropName(a) => format!("dn {a}"),
             Op::WithLocation(a, b, c) => format!("wl {a} {b} {c}"),
             Op::ToClonedArc(a, b) => format!("ta {a} {b}"),
@@ -174,6 +198,7 @@ impl Op {
             "ns" => Op::NewStatic(u8_(1)?, u8_(2)?),
             "fa" => Op::FromArc(u8_(1)?, u8_(2)?, u8_(3)? != 0),
             "cn" => Op::CloneName(u8_(1)?, u8_(2)?),
+            "cf" => Op::CloneFrom(u8_(1)?, u8_(2)?),
             "dn" => Op::DropName(u8_(1)?),
             "wl" => Op::WithLocation(u8_(1)?, u8_(2)?, u64_(3)? as u32),
             "ta" => Op::ToClonedArc(u8_(1)?, u8_(2)?),
@@ -226,7 +251,8 @@ pub fn gen_op(rng: &mut Rng, allow_clone_panic: bool) -> Op {
         0..=2 => Op::NewHeap(n(rng), t(rng)),
         3..=4 => Op::NewStatic(n(rng), t(rng)),
         5..=7 => Op::FromArc(n(rng), t(rng), rng.chance(1, 2)),
-        8..=11 => Op::CloneName(n(rng), n(rng)),
+        8..=10 => Op::CloneName(n(rng), n(rng)),
+        11 => Op::CloneFrom(n(rng), n(rng)),
         12..=14 => Op::DropName(n(rng)),
         15..=17 => Op::WithLocation(n(rng), rng.below(8) as u8, start(rng)),
         18..=19 => Op::ToClonedArc(n(rng), a(rng)),
@@ -446,7 +472,7 @@ impl Pool {
                 let name = if t == 1 {
                     apollo_compiler::name!("Query")
                 } else {
-                    Name::new_static(TEXTS[t as usize]).map_err(|e| problem("api", e.to_string()))?
+                    Name::new_static(static_text(t)).map_err(|e| problem("api", e.to_string()))?
                 };
                 self.names[s] = Some(name);
                 self.m_names[s] = Some(MName {
@@ -486,6 +512,29 @@ impl Pool {
                         self.group_add(m.group, m.text, 1);
                         self.m_names[b] = Some(m);
                         self.count("op.clone_name");
+                    }
+                }
+            }
+            Op::CloneFrom(a, b) => {
+                let (a, b) = (a as usize, b as usize);
+                if a != b {
+                    if let Some(m) = self.m_names[a].clone() {
+                        if self.m_names[b].is_some() {
+                            let (src, dst) = if a < b {
+                                let (l, r) = self.names.split_at_mut(b);
+                                (l[a].as_ref().unwrap(), r[0].as_mut().unwrap())
+                            } else {
+                                let (l, r) = self.names.split_at_mut(a);
+                                (r[0].as_ref().unwrap(), l[b].as_mut().unwrap())
+                            };
+                            dst.clone_from(src);
+                            self.forget_name(b);
+                        } else {
+                            self.names[b] = Some(self.names[a].as_ref().unwrap().clone());
+                        }
+                        self.group_add(m.group, m.text, 1);
+                        self.m_names[b] = Some(m);
+                        self.count("op.clone_from");
                     }
                 }
             }
